@@ -1,5 +1,5 @@
 # symgo interpreter: region execution with merging at immediate post-dominators.
-import time, itertools, json
+import time, itertools, json, os
 import z3
 import engine as E
 from engine import *
@@ -18,6 +18,13 @@ class ForkRequest(Exception):
 
     def __init__(s, term, reg, what):
         s.term, s.reg, s.what = term, reg, what
+
+
+class ForkBool(Exception):
+    """the current instruction needs `cond` decided: fork into cond / not cond and re-execute"""
+
+    def __init__(s, cond, what):
+        s.cond, s.what = cond, what
 
 
 def subst_term(v, term, val):
@@ -62,7 +69,8 @@ class Ctx:
         s.max_instrs = o.get('max_instrs', 30_000_000)
         s.alloc_limit = o.get('alloc_limit', 64)
         s.concretize_k = o.get('concretize_k', 48)
-        s.allow_go = o.get('allow_go', False)
+        s.allow_go = o.get("allow_go", False)
+        s.progress_every = int(os.environ.get("PROGRESS", "20000"))
         s.fresh_feas = o.get('fresh_feas', True)
         s.last_feas_solver = None
         s.instrs = 0
@@ -628,7 +636,7 @@ class Interp:
                 c.instrs += 1
                 if c.instrs > c.max_instrs:
                     raise Inconclusive('instruction budget exceeded')
-                if c.verbose and c.instrs % 20000 == 0:
+                if c.verbose and c.instrs % c.progress_every == 0:
                     print(f'   progress instrs={c.instrs} forks={c.forks} merges={c.merges} calls={c.solver_calls} solver_s={c.solver_time:.1f} fn={f["name"][-40:]} blk={blk}', flush=True)
                 if op == 'Jump':
                     pred, blk = blk, b['succs'][0]
@@ -730,6 +738,25 @@ class Interp:
                     continue
                 try:
                     s.step(st, fr, ins)
+                except ForkBool as e:
+                    outA, outL = [], []
+                    c.forks += 1
+                    c.states += 1
+                    for cnd in (e.cond, z3.Not(e.cond)):
+                        cst = st.fork()
+                        cst.pc.append(cnd)
+                        if not s.feasible(cst.pc, None):
+                            continue
+                        frc = Frame(f, dict(fr.regs))
+                        frc.iters = dict(fr.iters)
+                        frc.defers = list(fr.defers)
+                        try:
+                            a, l = s.run_region(cst, frc, blk, pred, stop, start=ii - 1, skip_phi=True)
+                            outA += a
+                            outL += l
+                        except PathEnd:
+                            pass
+                    return outA, outL
                 except ForkRequest as e:
                     vals = s.enum_values(st, e.term, e.what + ' in ' + short(f['name']))
                     outA, outL = [], []
@@ -1119,7 +1146,20 @@ class Interp:
                 val = merge_typed(hit, vv, val, et) if hit is not True else vv
                 ok = Or(hit, ok) if hit is not True else True
         except Unmergeable:
-            raise Unsupported('map lookup with symbolic key over non-mergeable values (use vMapGet)')
+            # values that cannot be merged (channels, pointers): decide the hit conditions one by one,
+            # forking where the path condition leaves one open; later entries shadow earlier ones
+            val, ok = zero(et), False
+            for (kk, vv, g) in reversed(ents):
+                hit = to_bool(And(g, eqv(kk, k)))
+                if hit is False:
+                    continue
+                if hit is not True:
+                    if not s.feasible(st.pc, hit):
+                        continue
+                    if s.feasible(st.pc, z3.Not(hit)):
+                        raise ForkBool(hit, 'map lookup')
+                val, ok = vv, True
+                break
         R[ins['reg']] = (val, ok) if ins['x']['commaok'] else val
 
     def map_update(s, st, m, k, v):
